@@ -45,7 +45,7 @@ def build(entry, segments, symbols=None, phdr_extra=b"", ehdr_patch=None, shstr=
                 st_name = 0
             else:
                 st_name = len(strtab)
-                strtab += name.encode() + b"\0"
+                strtab += (name if isinstance(name, bytes) else name.encode()) + b"\0"       # bytes: names that are not valid UTF-8
             syms.append(struct.pack("<IBBHQQ", st_name, info, 0, shndx, value, 0))
         symtab = b"".join(syms)
         shstrtab = b"\0.symtab\0.strtab\0.shstrtab\0"
